@@ -50,6 +50,57 @@ class Defs(dict):
         self.unpacked = set()
 
 
+_WHOLE_METHODS = {"items", "keys", "values", "copy", "indices"}
+_WHOLE_CALLS = {"tuple", "list", "sorted", "frozenset", "set", "dict", "id", "as_ufl", "as_tensor"}
+
+
+def _uses(node, prog, mod, fn_locals):
+    """[(name, projection text | None)]: how each data name is used - whole (None), or only through a
+    projection of it (attribute / item / method result), e.g. ('op', 'op.ufl_shape')"""
+    out = []
+
+    def visit(n, proj):
+        if isinstance(n, ast.Name):
+            if n.id in fn_locals and n.id != "cls":
+                out.append((n.id, proj))
+            return
+        if isinstance(n, ast.Attribute):
+            s = norm(n)
+            if s.startswith("self.") and s.count(".") == 1:
+                out.append((s, proj))
+                return
+            visit(n.value, proj or norm(n))
+            return
+        if isinstance(n, ast.Subscript):
+            visit(n.value, proj or norm(n))
+            visit(n.slice, None)
+            return
+        if isinstance(n, ast.Call):
+            f = n.func
+            if isinstance(f, ast.Attribute):
+                if f.attr in _WHOLE_METHODS:
+                    visit(f.value, proj)
+                else:
+                    visit(f.value, proj or norm(n))
+            elif isinstance(f, ast.Name):
+                pass
+            else:
+                visit(f, None)
+            for a in n.args:
+                visit(a.value if isinstance(a, ast.Starred) else a, None)
+            for k in n.keywords:
+                visit(k.value, None)
+            return
+        if isinstance(n, ast.Lambda):
+            visit(n.body, None)
+            return
+        for c in ast.iter_child_nodes(n):
+            visit(c, None)
+
+    visit(node, None)
+    return out
+
+
 def _local_defs(fn: ast.FunctionDef):
     """name -> list of value expressions assigned to it (simple and tuple targets)."""
     defs = Defs()
@@ -164,15 +215,21 @@ def check_memo_keys(ctx, rep, rule, modules, min_sites=1, only_functions=None):
             defs = _local_defs(fi.node)
             for cache, keys, vals, node in sites:
                 n_sites += 1
-                key_names = set()
+                key_names, key_projs = set(), set()
                 for k in keys:
-                    key_names |= _names(k, prog, mod, locs)
+                    for nm, proj in _uses(k, prog, mod, locs):
+                        if proj is None:
+                            key_names.add(nm)
+                        else:
+                            key_projs.add(proj)
                 key_text = " | ".join(norm(k) for k in keys)
                 missing = set()
                 for v in vals:
-                    for nm in _names(v, prog, mod, locs):
+                    for nm, proj in _uses(v, prog, mod, locs):
                         if nm in key_names:
                             continue
+                        if proj is not None and proj in key_projs:
+                            continue  # the value reads the very projection the key holds
                         if nm == cache:
                             continue
                         # derived only from key names?  follow local definitions (depth 2)
